@@ -176,7 +176,7 @@ PROPS = {
     ),
     "C09": dict(
         modules=["Whawty.Props.C09"],
-        suites=[("hdrv", "c09"), ("hdrv", "c09f"), ("hdrv", "c09r")],
+        suites=[("hdrv", "c09"), ("hdrv", "c09f"), ("hdrv", "c09r"), ("overlay", "v09u")],
         level_text="durableAtAck_sound: the checker implies that from the acknowledgement on, under every subset of "
                    "pending directory operations, the name shows exactly the acknowledged content; model theorems for "
                    "add / update / set-admin / remove of the repaired code and the negation for the pinned code (D4). "
